@@ -862,6 +862,11 @@ func (c *CAManager) UpdateConfiguration(args *structs.CARequest) (reterr error) 
 	}
 
 	cleanupNewProvider := func() {
+		if current, _ := c.getCAProvider(); sharesProviderState(newProvider, current) {
+			// nothing was created for the new instance: what it holds is the
+			// active provider's
+			return
+		}
 		// Inject immutable TokenDirs so Cleanup → ParseVaultCAConfig cannot
 		// read an attacker-controlled allowlist from the API-supplied config.
 		if err := newProvider.Cleanup(args.Config.Provider != config.Provider, c.injectTokenDirs(args.Config.Config)); err != nil {
@@ -883,6 +888,16 @@ func (c *CAManager) UpdateConfiguration(args *structs.CARequest) (reterr error) 
 		return err
 	}
 	return nil
+}
+
+// sharesProviderState reports whether two provider instances work on the same
+// persisted state, in which case cleaning up one would break the other.
+func sharesProviderState(a, b ca.Provider) bool {
+	if a == nil || b == nil {
+		return false
+	}
+	sharer, ok := a.(interface{ SharesStateWith(ca.Provider) bool })
+	return ok && sharer.SharesStateWith(b)
 }
 
 // ValidateConfigUpdater is an optional interface that may be implemented
@@ -1061,8 +1076,13 @@ func (c *CAManager) primaryUpdateRootCA(newProvider ca.Provider, args *structs.C
 
 	// Inject immutable TokenDirs so Cleanup → ParseVaultCAConfig cannot
 	// read an attacker-controlled allowlist from the API-supplied config.
-	if err := oldProvider.Cleanup(args.Config.Provider != config.Provider, c.injectTokenDirs(args.Config.Config)); err != nil {
-		c.logger.Warn("failed to clean up old provider", "provider", config.Provider, "error", err)
+	// (An old instance over the very state the new one uses - the same key
+	// settings configured again, e.g. after an initialization that did not
+	// get as far as storing its root - has nothing of its own to clean up.)
+	if !sharesProviderState(oldProvider, newProvider) {
+		if err := oldProvider.Cleanup(args.Config.Provider != config.Provider, c.injectTokenDirs(args.Config.Config)); err != nil {
+			c.logger.Warn("failed to clean up old provider", "provider", config.Provider, "error", err)
+		}
 	}
 
 	c.logger.Info("CA rotated to new root under provider", "provider", args.Config.Provider)
